@@ -470,6 +470,57 @@ fn c16(ctx: &mut Ctx, _w: &World, _st: &St, _params: &Params, _method: Method, f
     }
     verif_hooks::set_hash_seed(0);
     ctx.hit("rebuilt-under-4-seeds");
+    // no set-typed field of the built transaction repeats an element; values and mint canonical
+    if let Ok(n) = crate::refcbor::parse(bytes) {
+        if let Some(tx) = n.as_array() {
+            let mut sets: Vec<(&str, u64, &crate::refcbor::Node)> = Vec::new();
+            for k in [0u64, 13, 18, 14, 4, 20] {
+                if let Some(f) = tx[0].map_get(k) {
+                    sets.push(("body", k, f));
+                }
+            }
+            for k in [0u64, 1, 2, 3, 4, 6, 7] {
+                if let Some(f) = tx[1].map_get(k) {
+                    sets.push(("witness-set", k, f));
+                }
+            }
+            for (part, k, f) in sets {
+                if let Some(items) = f.set_items() {
+                    let mut spans: Vec<&[u8]> = items.iter().map(|x| x.span(bytes)).collect();
+                    if spans.len() > 1 {
+                        ctx.hit("built-set-with-two-or-more-elements");
+                    }
+                    spans.sort();
+                    if spans.windows(2).any(|w| w[0] == w[1]) {
+                        ctx.violation(format!("C16/built-transaction-repeats-an-element/{}-field-{}", part, k), what());
+                    }
+                }
+            }
+            let mut maps: Vec<&crate::refcbor::Node> = Vec::new();
+            if let Some(m) = tx[0].map_get(9) {
+                maps.push(m);
+            }
+            for k in [1u64, 16] {
+                let outs: Vec<&crate::refcbor::Node> = match (k, tx[0].map_get(k)) {
+                    (1, Some(o)) => o.as_array().map(|a| a.iter().collect()).unwrap_or_default(),
+                    (_, Some(o)) => vec![o],
+                    _ => vec![],
+                };
+                for o in outs {
+                    let v = o.as_array().and_then(|a| a.get(1)).or_else(|| o.map_get(1));
+                    if let Some(ma) = v.and_then(|v| v.as_array()).and_then(|a| a.get(1)) {
+                        maps.push(ma);
+                    }
+                }
+            }
+            for m in maps {
+                ctx.hit("built-asset-map-checked");
+                if let Some(d) = asset_order_defect(m) {
+                    ctx.violation("C16/built-transaction-asset-map-not-canonical".to_string(), format!("{} ; {}", d, what()));
+                }
+            }
+        }
+    }
     for (name, b) in &variants {
         if b != bytes {
             let t1 = ledger::parse_tx(bytes).ok();
@@ -490,4 +541,25 @@ fn c16(ctx: &mut Ctx, _w: &World, _st: &St, _params: &Params, _method: Method, f
             break;
         }
     }
+}
+
+fn asset_order_defect(n: &crate::refcbor::Node) -> Option<String> {
+    let less = |a: &[u8], b: &[u8]| (a.len(), a) < (b.len(), b);
+    let m = n.as_map()?;
+    let keys: Vec<&[u8]> = m.iter().filter_map(|(k, _)| k.as_bytes()).collect();
+    for w in keys.windows(2) {
+        if !less(w[0], w[1]) {
+            return Some(format!("policy {} before {}", hx(w[0]), hx(w[1])));
+        }
+    }
+    for (_, inner) in m {
+        let im = inner.as_map()?;
+        let ik: Vec<&[u8]> = im.iter().filter_map(|(k, _)| k.as_bytes()).collect();
+        for w in ik.windows(2) {
+            if !less(w[0], w[1]) {
+                return Some(format!("asset name {} before {}", hx(w[0]), hx(w[1])));
+            }
+        }
+    }
+    None
 }
